@@ -31,6 +31,9 @@ RULE = ("constructor maps + history of 4-22 operations on one Workflow: add (9 n
         "connected channel, hide with None incl. several None, duplicate names, names shadowing another default key, "
         "unknown keys, None), value and channel assignment through wf.inputs[...], run with/without keyword "
         "arguments in the spellings wf.run(**kw) / wf(**kw) / wf.set_input_values(**kw) (cyclic graphs included), values "
+        "also by ITEM access wf.inputs[key].value = v and wf.inputs[key] = wf.outputs[okey]; channel names and map "
+        "names drawn from the IO panels' own attribute names (items, labels, ready, fetch, connected, to_list, "
+        "connections) and every panel entry re-read by item access; values "
         "typed int/bool/float and half of the time == to the held value but of another type, a child leaving by "
         "node.parent = None / = another workflow, pulling ONE child (child.pull() / child() -- the latter first lets the workflow fetch its exposed inputs, "
         "connected ones included --, only on acyclic data with readable panels; child labels ending in a digit get a node whose id contains that digit), re-adding a REMOVED node object (same or new label), relabelling a "
@@ -101,13 +104,27 @@ def K8Bb(b=1):
     return 3 * b + 4
 
 
-KINDS = [K0Inc, K1Lin, K2Na, K3Nb, K4Src, K5Mix, K6Same, K7Und, K8Bb]
-KIN = [["x"], ["x", "y"], ["b__c"], ["c"], [], ["a__b", "c"], ["x"], ["_b"], ["b"]]
-KOUT = [["y"], ["s", "d"], ["c"], ["b__c"], ["y"], ["c", "a__b"], ["x"], ["y"], ["_y"]]
+# channel names that the IO panels also carry as attributes of their own (dir(Inputs) / dir(Outputs)):
+# dot access can never reach such a channel, item access panel[name] is the only way in
+@as_function_node("labels")
+def K9Tag(items=2):
+    return 4 * items + 2
+
+
+@as_function_node("connected", "to_list")
+def K10Cnt(ready=1, fetch=3):
+    return ready + fetch, ready - 2 * fetch
+
+
+KINDS = [K0Inc, K1Lin, K2Na, K3Nb, K4Src, K5Mix, K6Same, K7Und, K8Bb, K9Tag, K10Cnt]
+KIN = [["x"], ["x", "y"], ["b__c"], ["c"], [], ["a__b", "c"], ["x"], ["_b"], ["b"], ["items"], ["ready", "fetch"]]
+KOUT = [["y"], ["s", "d"], ["c"], ["b__c"], ["y"], ["c", "a__b"], ["x"], ["y"], ["_y"], ["labels"],
+        ["connected", "to_list"]]
 
 PLAIN_LABELS = ["a", "b", "c", "n", "m", "n0", "step8"]
 TRICKY_LABELS = ["a", "a__b", "a_", "b", "b__c", "a__b__c", "a1"]
-NAMES = ["p", "q", "r", "x", "in1", "out", "a__x", "b__y"]
+NAMES = ["p", "q", "r", "x", "in1", "out", "a__x", "b__y", "items", "labels", "ready", "fetch", "connected", "to_list",
+         "connections"]
 
 
 def scoped(c, l):
@@ -115,7 +132,7 @@ def scoped(c, l):
 
 
 # channel values carry their Python type: a case value is an int (legacy) or ["i"|"b"|"f", n]
-KDEF = [[0], [1, 2], [3], [4], [], [5, 6], [1], [2], [1]]
+KDEF = [[0], [1, 2], [3], [4], [], [5, 6], [1], [2], [1], [2], [1, 3]]
 
 
 def tval(x):
@@ -256,7 +273,7 @@ def gen_map(rng, sim, d):
 def gen_case(rng, n_ops, tricky):
     sim = _Sim()
     labels = TRICKY_LABELS if tricky else PLAIN_LABELS
-    kinds = [2, 3, 5, 7, 8, 0, 1] if tricky else [0, 0, 1, 1, 4, 5, 6, 2, 3]
+    kinds = [2, 3, 5, 7, 8, 0, 1] if tricky else [0, 0, 1, 1, 4, 5, 6, 2, 3, 9, 9, 10, 10]
     im = gen_map(rng, sim, 0) if rng.random() < 0.1 else None
     om = gen_map(rng, sim, 1) if rng.random() < 0.1 else None
     if rng.random() < 0.08:
@@ -298,7 +315,7 @@ def gen_case(rng, n_ops, tricky):
         if len(sim.kids) < 2 and not wild and rng.random() < 0.8:
             k = "add"
         else:
-            k = rng.choice(["add"] * 4 + ["rm"] * 2 + ["orphan", "move"] + ["setin"] * 2 + ["pull"] * 3 + ["con"] * 5 + ["dis", "disall"] + ["map"] * 6 + ["set"] * 3
+            k = rng.choice(["add"] * 4 + ["rm"] * 2 + ["orphan", "move"] + ["setin"] * 2 + ["pull"] * 3 + ["iset"] * 2 + ["wcon2"] * 2 + ["con"] * 5 + ["dis", "disall"] + ["map"] * 6 + ["set"] * 3
                            + ["wcon"] + ["run"] * 4 + ["readd"] * 3 + ["relabel"] * 2 + ["replace"] * 2
                            + ["mset"] * 5 + ["mdel"] + ["mupd"] * 2)
             if k in ("mset", "mdel", "mupd") and not wild:
@@ -464,6 +481,29 @@ def gen_case(rng, n_ops, tricky):
             else:
                 key, c, l = rng.choice(keys)
                 ops.append(["set", key, val(key, c, l)])
+        elif k == "iset":
+            keys = sim.panel_keys(0)
+            if wild or not keys:
+                ops.append(["iset", rng.choice(["nokey", "items", "labels"]), val()])
+            else:
+                key, c, l = rng.choice(keys)
+                ops.append(["iset", key, val(key, c, l)])
+        elif k == "wcon2":
+            keys, okeys = sim.panel_keys(0), sim.panel_keys(1)
+            if wild or not keys or not okeys:
+                ops.append(["wcon2", rng.choice(["nokey", "items"] + [x[0] for x in keys]),
+                            rng.choice(["nokey", "labels"] + [x[0] for x in okeys])])
+            else:
+                (key, c, l), (okey, oc, ol) = rng.choice(keys), rng.choice(okeys)
+                order = sim.labels()
+                for _ in range(6):           # mostly forward edges
+                    if order.index(oc) < order.index(c):
+                        break
+                    (key, c, l), (okey, oc, ol) = rng.choice(keys), rng.choice(okeys)
+                ops.append(["wcon2", key, okey])
+                t = (c, l, oc, ol)
+                if t not in sim.conns:
+                    sim.conns.insert(0, t)
         elif k == "wcon":
             keys = sim.panel_keys(0)
             outs = sim.chans(1)
@@ -603,7 +643,14 @@ def run_impl(case):
     def panel(which):
         try:
             p = getattr(wf, which)
-            return ["ok", [[ks(k), cid(ch)] for k, ch in p.items()]]
+            ent = [[k, ch] for k, ch in p.items()]
+            by_item = []
+            for k, _ in ent:                      # the same entries fetched by ITEM access panel[key]
+                try:
+                    by_item.append(cid(p[k]))
+                except Exception:
+                    by_item.append(-2)
+            return ["ok", [[ks(k), cid(ch)] for k, ch in ent], by_item]
         except Exception as e:
             return [type(e).__name__]
 
@@ -727,6 +774,10 @@ def run_impl(case):
                 m.update(_dict(op[2]))
         elif k == "set":
             wf.inputs[op[1]] = tval(op[2])
+        elif k == "iset":
+            wf.inputs[op[1]].value = tval(op[2])
+        elif k == "wcon2":
+            wf.inputs[op[1]] = wf.outputs[op[2]]
         elif k == "wcon":
             o = chan(1, op[2], op[3])
             if o is None:
@@ -788,6 +839,10 @@ def op_coq(op):
         return "ORun " + cl(f"({cs(a)}, {cz(encz(b))})" for a, b in op[1])
     if k == "setin":
         return "OSetInputs " + cl(f"({cs(a)}, {cz(encz(b))})" for a, b in op[1])
+    if k == "iset":
+        return f"OItemAssign {cs(op[1])} {cz(encz(op[2]))}"
+    if k == "wcon2":
+        return f"OWConnect2 {cs(op[1])} {cs(op[2])}"
     if k == "pull":
         return f"OPull {cs(op[1])} {'true' if op[2] else 'false'}"
     if k == "orphan":
@@ -952,12 +1007,27 @@ def failures(case, obs):
             if got[0] != "ok":
                 out.append((step, "panel", f"wf.{name} raised {got[0]}"))
                 continue
+            if len(got) > 2 and got[2] != [c for _, c in got[1]]:
+                out.append((step, "identity", f"wf.{name}[key] (item access) does not return the channels the panel "
+                                              f"lists: {got[1]} vs ids by item {got[2]}"))
             want = sorted([k, c] for k, c, _, _ in ent)
             if sorted(got[1]) != want:
                 out.append((step, "panel", f"wf.{name} holds {got[1]} (key, channel id); the open/exposed child "
                                            f"channels are {want}"))
         # -- assigning through the workflow assigns to the child
-        if op[0] == "set" and pre_in is not None:
+        if op[0] == "wcon2" and pre_in is not None:
+            e_out = expected_panel(prev[0], prev[2], 1)
+            if not collision(e_out):
+                pre_out = {k: c for k, c, _, _ in e_out}
+                if op[2] in pre_out and op[1] in pre_in:
+                    tgt, src = pre_in[op[1]], pre_out[op[2]]
+                    now = [cn_ for _, ins, _ in snap[0] for _, c, cn_, _ in ins if c == tgt]
+                    if res != "ok" or not now or src not in now[0]:
+                        out.append((step, "assign", f"wf.inputs[{op[1]!r}] = wf.outputs[{op[2]!r}] gave {res}; the child "
+                                                    f"channel {tgt} is connected to {now} (expected {src})"))
+                elif res == "ok":
+                    out.append((step, "assign", f"wf.inputs[{op[1]!r}] = wf.outputs[{op[2]!r}] with an absent key was accepted"))
+        if op[0] in ("set", "iset") and pre_in is not None:
             before, after = _vals(prev), _vals(snap)
             if op[1] in pre_in:
                 tgt = pre_in[op[1]]
